@@ -52,6 +52,18 @@ def sem_fixed():
         Variant("FxBack", "struct", [Field("fx_n", prim("i32"))], rename="back\\slash"),
         Variant("FxUnitQ", "unit", rename='a "unit"'),
         Variant("FxPlainV", "struct", [Field("fx_p", prim("bool"))])]))
+    # a struct with optional_fields whose field is a newtype over an Option: the key stays required (serde demands it)
+    nick = add(Item("FxNick", "FxNick", "newtype", fields=[Field(None, Ty("opt", args=[prim("String")]))]))
+    opt_struct = add(Item("FxOptFieldsNewtype", "FxOptFieldsNewtype", "named", optional_fields="opt", fields=[
+        Field("fx_id", prim("i32")), Field("fx_nick", user(nick)),
+        Field("fx_bio", Ty("opt", args=[prim("String")]), extra_attrs=['#[serde(skip_serializing_if = "Option::is_none")]'])]))
+    # a string literal that looks like the start of a comment, inside the first of two flattened enums of an only-flattened member
+    em = add(Item("FxMimeA", "FxMimeA", "enum", variants=[
+        Variant("FxImg", "struct", [Field("fx_w", prim("i32"))], rename="image/*"), Variant("FxTxt", "struct", [Field("fx_t", prim("bool"))], rename="text/*")]))
+    en = add(Item("FxMimeB", "FxMimeB", "enum", variants=[
+        Variant("FxK1", "struct", [Field("fx_k1", prim("String"))]), Variant("FxK2", "struct", [Field("fx_k2", prim("u8"))])]))
+    mm = add(Item("FxMimeBoth", "FxMimeBoth", "named", fields=[Field("fx_ma", user(em), flatten=True), Field("fx_mb", user(en), flatten=True)]))
+    add(Item("FxOnlyFlatMime", "FxOnlyFlatMime", "named", fields=[Field("fx_only", user(mm), flatten=True)]))
     # rename_all_fields with a struct variant that has no fields (serde accepts it)
     add(Item("FxRenameAllFieldsEmpty", "FxRenameAllFieldsEmpty", "enum", rename_all_fields="camelCase", variants=[
         Variant("FxEmptyV", "struct", []), Variant("FxFullV", "struct", [Field("fx_x_y", prim("i32"))])]))
@@ -91,6 +103,22 @@ def graph_fixed():
         Variant("FgS", "struct", [Field("fg_s1", prim("bool"))])]))
     add(Item("FgInlineIntMap", "FgInlineIntMap", "named", fields=[Field("fg_p", prim("i32")), Field("fg_e", user(e2), inline=True)],
              export_to="fgshared/x.ts"))
+    # parallel directory trees that share a directory name after they diverge
+    cust = add(Item("FgCustomer", "FgCustomer", "named", fields=[Field("fg_c", prim("u8"))], export_to="fgv2/models/"))
+    extra = add(Item("FgExtra", "FgExtra", "named", fields=[Field("fg_x", prim("bool"))], export_to="fgv2/models/extra/"))
+    add(Item("FgOrder", "FgOrder", "named", fields=[Field("fg_cust", user(cust)), Field("fg_extra", Ty("vec", args=[user(extra)]))],
+             export_to="fgv1/models/"))
+    # an `export_to` that names a file without an extension is taken verbatim
+    plain = add(Item("FgPlainDep", "FgPlainDep", "named", fields=[Field("fg_pd", prim("i32"))], export_to="fgplain/dep_bindings"))
+    # (nothing imports them: an import specifier cannot name a file without the `.ts` extension)
+    add(Item("FgPlainUser", "FgPlainUser", "named", fields=[Field("fg_pu", user(cust))], export_to="fgplain/nested/index"))
+    # string literals that look like the start of a comment, in an only-flattened member made of two enums
+    gm = add(Item("FgMimeA", "FgMimeA", "enum", variants=[
+        Variant("FgImg", "struct", [Field("fg_w", prim("i32"))], rename="image/*"), Variant("FgTxt", "struct", [Field("fg_t", prim("bool"))])]))
+    gn = add(Item("FgMimeB", "FgMimeB", "enum", variants=[
+        Variant("FgK1", "struct", [Field("fg_k1", prim("String"))]), Variant("FgK2", "struct", [Field("fg_k2", prim("u8"))])]))
+    gmm = add(Item("FgMimeBoth", "FgMimeBoth", "named", fields=[Field("fg_ma", user(gm), flatten=True), Field("fg_mb", user(gn), flatten=True)]))
+    add(Item("FgOnlyFlatMime", "FgOnlyFlatMime", "named", fields=[Field("fg_only", user(gmm), flatten=True)]))
     # a file importing from a file of the same name in a directory below it
     low = add(Item("FgTypesLow", "FgTypesLow", "named", fields=[Field("fg_low", prim("u8"))], export_to="fgapi/v2/types.ts"))
     add(Item("FgTypesTop", "FgTypesTop", "named", fields=[Field("fg_top", user(low)), Field("fg_more", Ty("vec", args=[user(low)]))],
